@@ -76,7 +76,7 @@ func VerifC10Guards() {
 
 	// the file: package name and import names symbolic
 	pkgLen := []int{3, 8}[nd.Choose("pkglen", 2)] // "pkg" / "pkg_test"
-	fileHas1 := nd.Choose("file1", 6)             // absent | unnamed | named (2 symbolic bytes) | named "mv" | dot | blank
+	fileHas1 := nd.Choose("file1", 8)             // absent | unnamed | named (2 symbolic bytes) | named "mv" | dot | blank | unnamed AND named | named AND unnamed (the path imported twice)
 	fileHas2 := nd.Choose("file2", 3)             // absent | unnamed | named (2 symbolic bytes)
 	grouped := nd.Choose("grouped", 2) == 1
 	raw := nd.Choose("rawstring", 2) == 1 // the file spells its import paths as raw strings
@@ -101,11 +101,21 @@ func VerifC10Guards() {
 	}
 	src := "package " + "pkg_test"[:pkgLen] + "\n\n"
 	s1, s2 := spec(fileHas1, "a/b"), spec(fileHas2, "c/d")
+	s1b := "" // second spec of the first path
+	switch fileHas1 {
+	case 6:
+		s1, s1b = spec(1, "a/b"), spec(2, "a/b")
+	case 7:
+		s1, s1b = spec(2, "a/b"), spec(1, "a/b")
+	}
 	switch {
 	case grouped && (s1 != "" || s2 != ""):
 		src += "import (\n\t\"fmt\"\n"
 		if s1 != "" {
 			src += "\t" + s1 + "\n"
+		}
+		if s1b != "" {
+			src += "\t" + s1b + "\n"
 		}
 		if s2 != "" {
 			src += "\t" + s2 + "\n"
@@ -115,6 +125,9 @@ func VerifC10Guards() {
 		src += "import \"fmt\"\n"
 		if s1 != "" {
 			src += "import " + s1 + "\n"
+		}
+		if s1b != "" {
+			src += "import " + s1b + "\n"
 		}
 		if s2 != "" {
 			src += "import " + s2 + "\n"
@@ -131,10 +144,12 @@ func VerifC10Guards() {
 	}
 	file.Name.Name = pn
 	var name1, name2 *ast.Ident
+	var names1 []*ast.Ident // one entry per spec importing the first path, in file order (nil = unnamed)
 	for _, is := range file.Imports {
 		switch is.Path.Value {
 		case `"a/b"`, "`a/b`":
 			name1 = is.Name
+			names1 = append(names1, is.Name)
 		case `"c/d"`, "`c/d`":
 			name2 = is.Name
 		}
@@ -148,7 +163,9 @@ func VerifC10Guards() {
 		nd.Assume(nd.And(s[1] >= 'a', s[1] <= 'z'))
 		id.Name = s
 	}
-	symName(name1, "name1")
+	for _, id := range names1 {
+		symName(id, "name1")
+	}
 	symName(name2, "name2")
 
 	// the code the pattern looks for: its name is symbolic, so the file may not contain an instance at all
@@ -201,7 +218,15 @@ func VerifC10Guards() {
 		}
 		return false
 	}
-	want := nd.And(formOK(form1, fileHas1 != 0, name1), formOK(form2, fileHas2 != 0, name2))
+	ok1 := formOK(form1, fileHas1 != 0, name1)
+	if len(names1) > 1 {
+		// the path is imported twice: the guard holds if either spec has the stated form
+		ok1 = false
+		for _, id := range names1 {
+			ok1 = nd.Or(ok1, formOK(form1, true, id))
+		}
+	}
+	want := nd.And(ok1, formOK(form2, fileHas2 != 0, name2))
 	if withPkg {
 		want = nd.And(want, nd.StrEq(pn, "pkg"))
 	}
